@@ -26,10 +26,10 @@ CHECKS = {
         note="Assumed: call graph over-approximates real calls (dynamic dispatch of get_parser/get_emitter declared), primitive-effect tables complete, attribute access on stdlib modules/objects is side-effect free (the globals/locals visible at the eval site are checked, in a real interpreter, to be only modules, functions, classes, plain data and stdlib instances), third-party code (black) has no such effects."),
     "C20": dict(
         category="other", design_ref="DESIGN.md §5 C20, §2.2",
-        technique="contract-based frame verification: flag-guard dominance (dry_run) over the call-graph closure of exmod (E2); remaining clauses by a bounded run of the real CLI with file-system snapshots",
-        text="PROVED for all inputs (frame condition): no file-system write site in the call-graph closure of exmod is reachable when dry_run is true (one obligation per write site, flag followed through keyword/positional/partial passing, with cover obligations against vacuity). "
+        technique="contract-based frame verification: flag-guard dominance (dry_run) over the call-graph closure of exmod (E2); an E1 contract on relative_filename (next(map(F, filter(P, xs)), D) idiom, z3 strings); remaining clauses by a bounded run of the real CLI with file-system snapshots",
+        text="PROVED for all inputs (frame condition): no file-system write site in the call-graph closure of exmod is reachable when dry_run is true (one obligation per write site, flag followed through keyword/positional/partial passing, with cover obligations against vacuity); E1 contract on cdd.shared.pkg_utils:relative_filename (all strings): what it returns is a suffix of the file name it was given, so joining it to the output directory can never climb out with `..` segments (counter-models replayed on the real function from a deep working directory). "
              "BOUNDED, not proved: containment under the output directory, validity of generated files and their __all__, source package untouched, blacklist/whitelist — real CLI over a stated option matrix on a generated package. The generated package is exercised both installed in a venv and lying in a plain directory on PYTHONPATH. One known finding (output directory named 'gold').",
-        note="Assumed: call graph over-approximates real calls; FS_WRITE primitive table complete. The path-confinement contract (emit_filename under output_directory) is NOT provable on the pinned tree: relative_filename returns absolute paths for non-installed packages, os.path.join then yields the source file, and the tree is safe only because the write is skipped when the file already defines the symbol (DESIGN §10.8)."),
+        note="Assumed: call graph over-approximates real calls; FS_WRITE primitive table complete. relative_filename: get_python_lib() returns some str (uninterpreted), str.casefold is an uninterpreted function. The path-confinement contract (emit_filename under output_directory) is NOT provable on the pinned tree: relative_filename returns absolute paths for non-installed packages, os.path.join then yields the source file, and the tree is safe only because the write is skipped when the file already defines the symbol (DESIGN §10.8)."),
     "C18": dict(
         category="proof", design_ref="DESIGN.md §5 C18, §2.3",
         technique="deductive check in an exact model of CPython's import protocol over the module-level statements of the real files (E3), one obligation per entry module and per first module of all ordered pairs; every verdict replayed in real fresh interpreters",
@@ -63,7 +63,7 @@ CHECKS = {
     "C13": dict(
         category="other", design_ref="DESIGN.md §5 C13",
         technique="contract-based deductive verification of a block contract (E1: access paths on uninterpreted AST objects, Seq views, z3) on the default-alignment arithmetic of RewriteAtQuery.visit_FunctionDef; whole-file AST diff over generated module pairs for the rest",
-        text="PROVED for all signatures: if sync_properties overwrites a default value it is the default of the target parameter itself (index + (len(args) - len(defaults)) == position, with the self/cls offset), never another parameter's, and that block leaves the parameter list alone; side conditions on annotate_ancestry's numbering and on the idx lookup are discharged syntactically. The original defect (fixed by 7adde57) is exactly a refutation of this lemma. "
+        text="PROVED for all signatures: if sync_properties overwrites a default value it is the default of the target parameter itself (index + (len(args) - len(defaults)) == position, with the self/cls offset), never another parameter's, and that block leaves the parameter list alone; side conditions on annotate_ancestry's numbering and on the idx lookup are discharged syntactically; shape rule on it2literal (one Literal member per element of the evaluated value, in order; reported only when a replay on the real function confirms it). The original defect (fixed by 7adde57) is exactly a refutation of this lemma. "
              "BOUNDED only: every other clause (nothing else in the file changes, input untouched, name/annotation/wrap/Literal taken over), over generated module pairs, several calls per process.",
         note="The frame lemma over the args/kwonlyargs replacement loop promised in DESIGN (Seq with a quantified invariant) was not carried; it is covered only by the bounded AST diff."),
     "C07": dict(
@@ -93,13 +93,13 @@ CHECKS = {
     "C08": dict(
         category="other", design_ref="DESIGN.md §5 C01/C08",
         technique="contract-based deductive verification of set_default_doc (E1: record with presence bits, string VCs) and of the shared quoting lemmas; run-time fixpoint contract rt(rt(x)) == rt(x) over the wider IR(n) domain for the property itself",
-        text="PROVED (lemma, all inputs): set_default_doc leaves a description alone when it already mentions 'Defaults'/'defaults', and whatever it appends starts with the old text and contains 'Defaults to' — so it never appends twice; quote is idempotent (contracts/C01.py). "
-             "BOUNDED only — the property itself: three consecutive rounds agree after the first, over docstring / class / pydantic / function / argparse / json_schema / sqlalchemy x3 on the wider domain (trigger words, embedded default, ellipsis, non-suffix defaults for ReST). Four broad known-finding families on the pinned tree (trigger words drift in every format; Google/NumPy descriptions grow inside emitted code; None for missing defaults; argparse alternates).",
+        text="PROVED (lemma, all inputs): set_default_doc leaves a description alone when it already mentions 'Defaults'/'defaults', and whatever it appends starts with the old text and contains 'Defaults to' — so it never appends twice; quote is idempotent (contracts/C01.py); shape rule over both sites of the argparse help text (the emitter writes the description, at most word-wrapped, into help=, the parser reads it back with get_value only; when it stops matching, a violation is reported only if two rounds through the real functions then disagree). "
+             "BOUNDED only — the property itself: three consecutive rounds agree after the first, over docstring / class / pydantic / function / argparse / json_schema / sqlalchemy x3 on the wider domain (trigger words, embedded default, ellipsis, '%' signs, non-suffix defaults for ReST). Four broad known-finding families on the pinned tree (trigger words drift in every format; Google/NumPy descriptions grow inside emitted code; None for missing defaults; argparse alternates).",
         note="The pinned tree violates this property broadly, so the known-finding families are wide; a new drift inside one of those families would be hidden."),
     "C14": dict(
         category="other", design_ref="DESIGN.md §5 C14",
         technique="contract-based deductive verification of _set_name_and_type (E1 string VCs, z3) for the name-sanitising clause and of column_call_to_param's keyword folding (E1 block contract, record with presence bits) for the allowed-keys clause; the property's postcondition well_formed_ir(result) as a run-time contract on the real parsers over generated inputs",
-        text="PROVED (lemma, all names): the name returned by _set_name_and_type has no leading asterisk, is a suffix of the original and equals it when there was none. PROVED (block contract, all Column calls): after the keyword folding of column_call_to_param the entry has no `primary_key`, `foreign_key` or `nullable` key and still has its type; after the keyword folding of json_schema_property_to_param a non-empty `pattern` and the `description` keyword never survive as keys. "
+        text="PROVED (lemma, all names): the name returned by _set_name_and_type has no leading asterisk, is a suffix of the original and equals it when there was none. PROVED (block contract, all Column calls): after the keyword folding of column_call_to_param the entry has no `primary_key`, `foreign_key` or `nullable` key and still has its type; after the keyword folding of json_schema_property_to_param a non-empty `pattern` and the `description` keyword never survive as keys, and the type string written is json_type2typ of the schema's `type` (the real table), wrapped in Optional exactly when the name is not required. "
              "BOUNDED only — the postcondition itself: shape, allowed keys, parsable type strings, string descriptions, signature parameters present exactly once, on docstring / function / class (incl. merge_inner_function) / pydantic / argparse / json_schema / sqlalchemy parsers over grammar-generated docstrings, generated code and arbitrary token strings. Seven known-finding classes on the pinned tree (entry-keys findings name the leaked key).",
         note="The parsers themselves are outside the engine's reach; running the repository's own tests under the wrappers (planned in DESIGN) was not built."),
     "C03": dict(
